@@ -375,6 +375,8 @@ class OpsMixin:
         same = v == "same"
         if same:
             v = pr.size  # the size the pool already has is assigned once more: the pool size stays fixed
+        if v == "orig":
+            v = pr.orig_size  # back to the size the pool was constructed with (e.g. after a pause with size 0)
         val = float("inf") if v is None else v
         self.refresh_created(pr)
         snap = self.snapshot(pr)
